@@ -270,12 +270,28 @@ def stab_method_element(repo: Repo, cls: str, method: str):
     if fn is None:
         raise AnalysisError(f"anchor missing: {SSTATE}::{cls}.{method}")
     tcalls = [c for c in calls_in(fn) if (call_name(c) or "").startswith("transform.")]
+    params = func_params(fn)[1:]
+    if not tcalls:
+        # the transformation handed by reference to a helper of the same class that applies `gate(t_i, *positions)` to each branch:
+        # self._helper(transform.<gate>, <positions...>)
+        for c in calls_in(fn):
+            if isinstance(c.func, ast.Attribute) and norm(c.func.value) == "self" and c.args and isinstance(c.args[0], ast.Attribute) \
+                    and norm(c.args[0].value) == "transform":
+                h = ci.methods().get(c.func.attr)
+                if h is None:
+                    continue
+                hp = func_params(h)[1:]
+                applies = [x for x in ast.walk(h) if isinstance(x, ast.Call) and isinstance(x.func, ast.Name) and hp and x.func.id == hp[0]
+                           and any(isinstance(a, ast.Starred) and h.args.vararg is not None and norm(a.value) == h.args.vararg.arg for a in x.args[1:])]
+                if not applies:
+                    raise AnalysisError(f"{SSTATE}::{cls}.{c.func.attr}: helper does not apply its gate argument as gate(tableau, *positions)")
+                fwd = [a.id for a in c.args[1:] if isinstance(a, ast.Name)]
+                return c.args[0].attr, params, fwd, c, fn
     if len(tcalls) != 1:
         raise AnalysisError(f"{SSTATE}::{cls}.{method}: expected exactly one transform.* call, found {len(tcalls)}")
     c = tcalls[0]
     tname = call_attr(c)
     # argument forwarding: method params (after self) must be passed in order after the tableau argument
-    params = func_params(fn)[1:]
     fwd = [a.id for a in c.args[1:] if isinstance(a, ast.Name)]
     return tname, params, fwd, c, fn
 
